@@ -1,6 +1,6 @@
 (* C19 -- Index bases are transparent.  Only the property theorems, closed by `exact`, with Print Assumptions. *)
-From BM Require Import Base.Tactics Model.Layout Model.View Model.Spec Model.Iter Model.Rebase
-  Proofs.LayoutProofs Proofs.ViewProofs2 Proofs.IterProofs Proofs.ElemProofs Proofs.RebaseProofs.
+From BM Require Import Base.Tactics Model.Layout Model.View Model.Spec Model.Iter Model.Rebase Model.Compare
+  Proofs.LayoutProofs Proofs.ViewProofs2 Proofs.IterProofs Proofs.ElemProofs Proofs.RebaseProofs Proofs.RebaseCompare.
 Local Open Scope Z_scope.
 
 (* Any program of view operations (incl. reindexed, blocked) on a root built from explicit index
@@ -38,6 +38,20 @@ Proof.
   split; assumption.
 Qed.
 Print Assumptions C19_iterators_any_base.
+
+(* equality and ordering: two views reached by any programs from roots over explicit index extensions,
+   with the same index bases, compare (== != < <= > >=) exactly as their zero-based twins do *)
+Theorem C19_compare_transparent :
+  forall (xa xb : list range) (opsa opsb : list op) (a b : view) (m : Z -> Z),
+    Forall (fun r => fst r <= snd r) xa -> Forall (fun r => fst r <= snd r) xb ->
+    run_safe opsa (root_view xa) = true -> run_ops opsa (root_view xa) = Some a ->
+    run_safe opsb (root_view xb) = true -> run_ops opsb (root_view xb) = Some b ->
+    firsts_of a = firsts_of b ->
+       v_eq a b m = v_eq (norm a) (norm b) m /\ v_ne a b m = v_ne (norm a) (norm b) m
+    /\ v_lt a b m = v_lt (norm a) (norm b) m /\ v_le a b m = v_le (norm a) (norm b) m
+    /\ v_gt a b m = v_gt (norm a) (norm b) m /\ v_ge a b m = v_ge (norm a) (norm b) m.
+Proof. exact C19_compare_transparent_reachable_proved. Qed.
+Print Assumptions C19_compare_transparent.
 
 Theorem C19_diagonal_refuted : ~ C19_diagonal_transparent.
 Proof. exact C19_diagonal_refuted_proved. Qed.
